@@ -24,7 +24,7 @@ var profiles = map[string]Profile{
 	"visit": {"set": 24, "setrand": 4, "del": 8, "visit": 30, "flush": 4, "evict": 6, "reopen": 3, "obs": 6, "get": 3, "setcoll": 1},
 	// C04/C10: snapshots and handle lifetimes
 	"snap": {"set": 26, "del": 10, "snapshot": 8, "snapread": 10, "snapclose": 6, "snaprevert": 2, "snapsnap": 2, "snapwrite": 3,
-		"flush": 4, "evict": 3, "setcoll": 4, "removecoll": 3, "obs": 8, "get": 3, "otheralloc": 5, "reopen": 1, "visit": 3},
+		"flush": 4, "evict": 3, "setcoll": 4, "removecoll": 3, "obs": 8, "get": 3, "otheralloc": 5, "reopen": 1, "visit": 3, "collwrite": 2},
 	// C08: flush / revert
 	"revert": {"set": 20, "del": 6, "flush": 14, "revert": 10, "reopen": 6, "obs": 6, "setcoll": 3, "removecoll": 1, "get": 2,
 		"collwrite": 3, "writerevert": 3, "delroot": 2},
@@ -38,7 +38,7 @@ var profiles = map[string]Profile{
 		"flush": 8, "evict": 8, "reopen": 6, "obs": 2, "setcoll": 1, "burst": 4},
 	// C15: reference counting (no Get/Exist: they do not hand the item out)
 	"refs": {"set": 26, "setrand": 4, "del": 10, "get": 10, "min": 3, "max": 3, "visit": 8, "flush": 6, "evict": 8, "exist": 4, "len": 2, "enum": 2,
-		"reopen": 3, "snapshot": 3, "snapread": 4, "snapclose": 3, "setcoll": 3, "removecoll": 2, "obs": 4},
+		"reopen": 3, "snapshot": 3, "snapread": 4, "snapclose": 3, "setcoll": 3, "removecoll": 2, "obs": 4, "valburst": 2},
 }
 
 type seqCfg struct {
@@ -269,6 +269,28 @@ func (r *seqRun) step() bool {
 			w.Decode(m.File)
 		}
 		return true
+	case "valburst":
+		// items cached key-only after a re-open, then concurrent readers asking
+		// for the values of the same items (reference counts under races)
+		if m.File == nil || len(r.snaps) > 0 {
+			return true
+		}
+		{
+			f := m.File
+			if !w.Flush(m, nil) || !w.Close(m) {
+				return false
+			}
+			h := w.Open(f, nil)
+			if h == nil {
+				return false
+			}
+			r.main = h
+			if !w.ValueBurst(h, 4, 20) {
+				return false
+			}
+			w.Refs()
+			return true
+		}
 	case "burst":
 		// cold caches (re-open), then concurrent key-only readers
 		if m.File == nil || len(r.snaps) > 0 {
